@@ -185,7 +185,7 @@ def walk(stream, keep, lenient):
     table = {}
     seq = []
     over = False
-    for doc in stream["docs"]:
+    for di, doc in enumerate(stream["docs"]):
         if not keep:
             table = {}
         local = {}
@@ -193,7 +193,7 @@ def walk(stream, keep, lenient):
         for d in doc["dirs"]:
             if d["k"] == "Y":
                 if yaml_seen:
-                    return dict(ok=False, seq=seq, level="parse", why="dupyaml", pos=d["off"], over=over)
+                    return dict(ok=False, seq=seq, level="parse", why="dupyaml", pos=d["off"], over=over, doc=di)
                 yaml_seen = True
             elif d["k"] == "T":
                 p, why, o = pct_decode(d["raw"], lenient)
@@ -201,7 +201,7 @@ def walk(stream, keep, lenient):
                 if p is None:
                     return dict(ok=False, seq=seq, level="scan", why=why, pos=d["off"], over=over)
                 if d["h"] in local:
-                    return dict(ok=False, seq=seq, level="parse", why="duphandle", pos=d["off"], over=over)
+                    return dict(ok=False, seq=seq, level="parse", why="duphandle", pos=d["off"], over=over, doc=di)
                 local[d["h"]] = p
         table = dict(table)
         table.update(local)
@@ -217,9 +217,26 @@ def walk(stream, keep, lenient):
                 return dict(ok=False, seq=seq, level="scan", why=why, pos=n["tagoff"], over=over)
             e = expand(table, h, s)
             if e is None:
-                return dict(ok=False, seq=seq, level="parse", why="undeclared", pos=n["off"], over=over)
+                return dict(ok=False, seq=seq, level="parse", why="undeclared", pos=n["off"], over=over, doc=di)
             seq.append(e)
     return dict(ok=True, seq=seq, over=over)
+
+
+def scan_defects(stream, lenient):
+    """every broken escape of the stream, wherever it is: (document index, position, reason)"""
+    out = []
+    for di, doc in enumerate(stream["docs"]):
+        for d in doc["dirs"]:
+            if d["k"] == "T":
+                p, why, _ = pct_decode(d["raw"], lenient)
+                if p is None:
+                    out.append((di, d["off"], why))
+        for n in doc["nodes"]:
+            if n["tag"] is not None:
+                t, why, _ = pct_decode(n["tag"].split()[1], lenient)
+                if t is None:
+                    out.append((di, n["tagoff"], why))
+    return out
 
 
 def cps(s):
@@ -358,10 +375,14 @@ def gen_tag(rng, declared, earlier, pbad, pover):
     named_decl = [h for h in declared if len(h) > 2]
     named_early = [h for h in earlier if len(h) > 2 and h not in declared]
     q = rng.random()
-    if named_decl and q < 0.70:
+    if named_decl and q < 0.80:
         h = rng.choice(named_decl)
-    elif named_early and q < 0.90:
-        h = rng.choice(named_early)
+    elif named_early and q < 0.92:
+        h = rng.choice(named_early)         # declared in an earlier document only: resolves iff keep_tags
+    elif q < 0.96 or not (named_decl or named_early):
+        if not named_decl and rng.random() < 0.75:
+            return TagS("local" if rng.random() < 0.5 else "secondary", raw=sfx or "t")
+        h = rng.choice(NAMED)               # (most likely) never declared
     else:
         h = rng.choice(NAMED)
     return TagS("named", handle=h, raw=sfx or "t")
@@ -626,9 +647,16 @@ def dec_cps(s):
     return "".join(chr(int(x)) for x in s.split(".")) if s else ""
 
 
-def judge(exp, line, text):
-    """None if the implementation's line is what the expectation says, else a description"""
+def judge(exp, line, text, later=()):
+    """None if the implementation's line is what the expectation says, else a description.
+    later: broken escapes further on in the document of an expected parser-level error: the scanner runs ahead of the
+    parser while a simple key is possible, so it may report one of them first (then fewer tags are delivered)."""
     got, fin = impl_tags(line)
+    if not exp["ok"] and exp["level"] == "parse" and fin.startswith("ERR"):
+        for di, pos, why in later:
+            if di == exp["doc"] and pos > exp["pos"] and why in MSG and fin_msg(fin) == MSG[why] and fin_pos(fin) == marker(text, pos):
+                if got == exp["seq"][:len(got)]:
+                    return None
     if exp["ok"]:
         if fin != "OK":
             return "expected all tags resolved, got " + fin[:120]
@@ -739,13 +767,13 @@ def check_C16(tier, seed):
                 case = dict(input=text, codepoints=lines[i], keep_tags=bool(k))
                 line = impl[k][i]
                 strict = walk(s, bool(k), False)
-                bad = judge(strict, line, text)
+                bad = judge(strict, line, text, scan_defects(s, True))
                 cls = "ok" if strict["ok"] else strict["why"]
                 stats[cls] += 1
                 if bad is not None and strict["over"]:
                     # the first defect of the strict reading is a non-shortest form: the known finding
                     lenient = walk(s, bool(k), True)
-                    bad2 = judge(lenient, line, text)
+                    bad2 = judge(lenient, line, text, scan_defects(s, True))
                     if bad2 is None and "overlong-utf8-escape" in known:
                         kn_overlong += 1
                         kn_example = kn_example or (text, line[-120:])
